@@ -263,6 +263,16 @@ class C12(Check):
         res["oc"] = sorted(set(res["oc"]))
         return res
 
+    def standalone(self, space_name, payload, viol):
+        import ast as _ast
+
+        try:
+            canon = viol["canon"].split("|")[-1]
+            hist = _ast.literal_eval(canon)
+            return streams.history_code((2, 1), hist)
+        except Exception:
+            return None
+
     def render(self, space_name, payload):
         return repr(payload)
 
